@@ -87,6 +87,32 @@ Definition step_e (c : cons) := step Qc expr (fun v => inverse_e c (EConst v)) (
 Definition trace_e (c : cons) := trace Qc expr (fun v => inverse_e c (EConst v)) (interior_q c) EAdd.
 Definition read_e (c : cons) (s : cell expr) : expr := transform_e c (fst s).
 
+(* ---- a module with SEVERAL constrained parameters -----------------------------------------
+   (PeriodicKernel: lengthscale + period_length; RQKernel: lengthscale + alpha; MultitaskGaussianLikelihood:
+   noise + task_noises; ...).  One cell per parameter, each with ITS OWN constraint object.  The setter of
+   parameter i is `initialize(raw_i = constraint.inverse_transform(v))`; WHICH registered constraint it
+   consults is the parameter [via] (the identity in correct code; the getter always uses constraint i). *)
+Definition mstate : Type := list (cons * cell expr).
+Definition cons_at (s : mstate) (i : nat) : cons := fst (nth i s (CPositive, (EConst 0%Qc, O))).
+(* the setter/initialiser of a parameter read through [c] that consults [cv] *)
+Definition step_via (c cv : cons) : cell expr -> op Qc expr -> cell expr :=
+  step Qc expr (fun v => inverse_e cv (EConst v)) (interior_q cv) EAdd.
+Fixpoint mupd (s : mstate) (i : nat) (f : cons -> cell expr -> cell expr) : mstate :=
+  match s, i with
+  | [], _ => []
+  | (c, cl) :: r, O => (c, f c cl) :: r
+  | x :: r, S i' => x :: mupd r i' f
+  end.
+Definition mstep_via (via : nat -> nat) (s : mstate) (io : nat * op Qc expr) : mstate :=
+  mupd s (fst io) (fun c cl => step_via c (cons_at s (via (fst io))) cl (snd io)).
+Definition mstep : mstate -> nat * op Qc expr -> mstate := mstep_via (fun i => i).
+Fixpoint mtrace (s : mstate) (ops : list (nat * op Qc expr)) : list mstate :=
+  match ops with
+  | [] => []
+  | o :: r => let s' := mstep s o in s' :: mtrace s' r
+  end.
+Definition mread (s : mstate) : list expr := map (fun p => read_e (fst p) (snd p)) s.
+
 (* ---- prior log densities (documented formulas) ------------------------------------------- *)
 Definition e_half : expr := EConst (qc 1 2).
 Definition e_sq (x : expr) : expr := EMul x x.
@@ -167,6 +193,14 @@ Definition run_history (c : cons * Qc * list (op Qc expr)) : list Z :=
   let '(k, r0, ops) := c in
   ser_list (fun s : cell expr => Z.of_nat (snd s) :: ser_expr (read_e k s)) (trace_e k (EConst r0, O) ops).
 
+(* multi-parameter history: [(constraint_i, raw0_i)], ops addressed by parameter index -> per op, per
+   parameter: rejected-count, read term *)
+Definition run_mhistory (c : list (cons * Qc) * list (nat * op Qc expr)) : list Z :=
+  let '(cs, ops) := c in
+  ser_list (fun s : mstate =>
+              ser_list (fun p : cons * cell expr => Z.of_nat (snd (snd p)) :: ser_expr (read_e (fst p) (snd p))) s)
+           (mtrace (map (fun p => (fst p, (EConst (snd p), O))) cs) ops).
+
 Inductive prior_cfg :=
 | PNormal (mu s : Qc) | PLogNormal (mu s : Qc) | PHalfNormal (s : Qc) | PGamma (a b : Qc)
 | PHalfCauchy (s : Qc) | PUniform (a b : Qc) | PSmoothedBox (a b s : Qc) | PHorseshoe (s : Qc).
@@ -219,11 +253,12 @@ Inductive c17_case :=
 | KTransform (c : cons * list Qc) | KTransformE (c : cons * list expr) | KInverse (c : cons * list Qc)
 | KHistory (c : cons * Qc * list (op Qc expr)) | KPrior (c : prior_cfg * list Qc)
 | KLKJ (c : nat * Qc * list Qc) | KPriorT (c : prior_cfg * nat * list Qc)
-| KMVN (c : nat * list Qc * list (list Qc) * list Qc).
+| KMVN (c : nat * list Qc * list (list Qc) * list Qc)
+| KMHistory (c : list (cons * Qc) * list (nat * op Qc expr)).
 
 Definition run_c17 (k : c17_case) : list Z :=
   match k with
   | KTransform c => run_transform c | KTransformE c => run_transform_e c | KInverse c => run_inverse c
   | KHistory c => run_history c | KPrior c => run_prior c | KLKJ c => run_lkj c
-  | KPriorT c => run_prior_tr c | KMVN c => run_mvn c
+  | KPriorT c => run_prior_tr c | KMVN c => run_mvn c | KMHistory c => run_mhistory c
   end.
